@@ -385,6 +385,40 @@ fn fixed_statements(res: &mut RunResult) {
             }
         }
     }
+    // double negations: a negated bracket around a single negated named item is the item itself
+    {
+        let mut forms: Vec<(String, String)> = vec![
+            ("\\d".into(), "[^\\D]".into()),
+            ("\\s".into(), "[^\\S]".into()),
+            ("\\w".into(), "[^\\W]".into()),
+        ];
+        for k in ASCII_KINDS {
+            forms.push((format!("[[:{}:]]", k.name()), format!("[^[:^{}:]]", k.name())));
+            forms.push((format!("[[:{}:]]", k.name()), format!("[a&&[^[:^{}:]]~~a]", k.name())));
+        }
+        for name in SUPPORTED_UNICODE {
+            if name.len() == 1 {
+                forms.push((format!("\\p{}", name), format!("[^\\P{}]", name)));
+            } else {
+                forms.push((format!("\\p{{{}}}", name), format!("[^\\P{{{}}}]", name)));
+            }
+        }
+        for (pos, double_neg) in forms {
+            if let Ok(Ok(p)) = sut(|| scan_class_set(&pos)) {
+                let expected = if double_neg.starts_with("[a&&") {
+                    // [a && X ~~ a] = ({a} ∩ X) Δ {a}  = {a} \ X
+                    let mut e = CharSet::empty();
+                    if !p.has('a') {
+                        e.set('a');
+                    }
+                    e
+                } else {
+                    p.clone()
+                };
+                check(&double_neg, check_pattern_set(&double_neg, &expected, "double negation of a named item"));
+            }
+        }
+    }
     // every POSIX and supported Unicode item: negated form = complement of the positive form
     for k in ASCII_KINDS {
         let pos = format!("[[:{}:]]", k.name());
